@@ -17,6 +17,17 @@ PROP = "C15"
 PARTS = ["cap"]
 
 
+def _case_kinds():
+    """CaseKinds as written in spec/FixContract.tla (read from the spec so that messages name the token TLC rejected)."""
+    import os
+    import re
+
+    from ..tlc import SPEC_DIR
+    with open(os.path.join(SPEC_DIR, "FixContract.tla")) as fh:
+        body = fh.read().split("CaseKinds ==", 1)[1].split("}", 1)[0]
+    return set(re.findall(r'"([a-z_]+)"', body))
+
+
 def describe(t: dict, r: dict):
     case = t["case"]
     clause = r["clause"]
@@ -51,7 +62,7 @@ def describe(t: dict, r: dict):
                         diff = "other"
                     detail = f"{x[0]!r} -> {y[0]!r}"
                     break
-                if clause.endswith("Kind") and folded:
+                if clause.endswith("Kind") and folded and x[2] not in _case_kinds():
                     kind, diff, detail = x[2], "case", f"{x[0]!r} ({x[2]}) -> {y[0]!r}"
                     break
     sig = {"rule": rule, "policy": pol, "kind": kind, "diff": diff}
